@@ -464,6 +464,13 @@ func ReplayMode[C any](t *testing.T, spec Spec, run func(C, *Obs) error) bool {
 		return false
 	}
 	rec := Rec(spec)
+	if b, rerr := os.ReadFile(p); rerr == nil {
+		var rf replayFile
+		if json.Unmarshal(b, &rf) == nil && len(rf.Case) > 0 && !replayBelongs[C](rf) {
+			t.Logf("replay %s is a case of another sub-check of %s (different case type): skipped here", p, spec.ID)
+			return true
+		}
+	}
 	f, err := runReplayFile(spec, p, run)
 	if err != nil {
 		t.Fatalf("cannot replay %s: %v", p, err)
